@@ -250,6 +250,9 @@ let handle (req : sexp) : sexp =
     (* the proved rounding bound of the one-pass variance (Proofs/VarFloat.v), evaluated exactly *)
     let q s = this (qc_of_string (atom s)) in
     A (string_of_qc (q2Qc (var_bound (q u) (q n) (q kn) (q kd) (q m) (nat_of h1) (nat_of h2))))
+  | L [A "mean_ticks"; groups] ->
+    (* util.mean_from_sum_count on tick counts: 64-bit wrapping sum // count per group, "N" for an empty group *)
+    L (List.map (fun g -> match group_mean_ticks (zlist g) with Some m -> A (string_of_z m) | None -> A "N") (lst groups))
   | L [A "bool_labels"; rows] ->
     (* per row of 0/1: the mask and the column positions its label names *)
     L (List.map (fun r ->
